@@ -96,6 +96,16 @@ theorem FrameX.of_upper {s s' : St} {L L' : Layer} (hup : s.disk.upper = some L)
     (q0 : Path) (hout : ∀ q, q0.isSuffixOf q = false → L' q = L q) : FrameX q0 s s' :=
   fun q hq => by rw [merge_outside hup hd q0 hout q hq]
 
+/-- the union of `d'` shows outside the subtree at `q0` what the union of `d` shows, up to xattrs -/
+def FrameD (d d' : Disk) (q0 : Path) : Prop :=
+  ∀ q, q0.isSuffixOf q = false → (merge d' q).dropX = (merge d q).dropX
+
+theorem FrameD.refl (d : Disk) (q0 : Path) : FrameD d d q0 := fun _ _ => rfl
+
+theorem FrameX.toD {q0 : Path} {s s' : St} (h : FrameX q0 s s') : FrameD s.disk s'.disk q0 := h
+
+theorem ViewX.toD {s s' : St} (h : ViewX s s') (q0 : Path) : FrameD s.disk s'.disk q0 := fun q _ => h q
+
 /-- the node at `p` is a directory -/
 def DirNode (p : Path) (s : St) : Prop :=
   ∀ m0 r0 rest0, s.mem p = some m0 → m0.reals = r0 :: rest0 → (s.disk.statReal r0).isDir = true
